@@ -299,7 +299,23 @@ def f_exists(p):
     return a
 
 
-FRAGMENTS = [f_exists, f_filter, f_join, f_join3, f_tc, f_mutual, f_negation, f_aggr, f_outer_aggr, f_strings, f_records, f_adt, f_eqrel, f_multi,
+def f_index_brie(p):
+    # (PARALLEL) index scans whose bodies insert into brie / btree relations: per-thread operation contexts matter here
+    a = p.fresh("ib")
+    k = p.r.randrange(0, 6)
+    p.decl(a, [("x", "number"), ("y", "number"), ("z", "number")], p.r.choice(["brie", "brie", "btree", ""]))
+    p.rule("%s(x,y,z) :- e1(x,y), e1(y,z), x > %d." % (a, k))
+    b = p.fresh("ib")
+    p.decl(b, [("y", "number"), ("z", "number")], p.r.choice(["brie", "brie", ""]))
+    p.rule("%s(y,z) :- e1(%d,y), e1(y,z)." % (b, k))
+    p.rule("%s(y,w) :- e2(x,y,w), x >= %d, e1(y,_)." % (b, k))
+    c = p.fresh("ib")
+    p.decl(c, [("x", "number"), ("w", "number")], "brie")
+    p.rule("%s(x,w) :- n1(x), x > %d, e2(x,_,w), !e1(w,x)." % (c, k))
+    return a
+
+
+FRAGMENTS = [f_exists, f_index_brie, f_filter, f_join, f_join3, f_tc, f_mutual, f_negation, f_aggr, f_outer_aggr, f_strings, f_records, f_adt, f_eqrel, f_multi,
              f_arith, f_indexed]
 
 
@@ -308,14 +324,19 @@ def gen_c20(seed, size="quick"):
     return gen_c03(seed, size, exclude=(f_eqrel,))
 
 
-def gen_c03(seed, size="quick", exclude=()):
+def gen_c03c(seed, size="quick"):
+    """workloads for the synthesised-program runs: always contain index scans that insert into brie/btree relations"""
+    return gen_c03(seed, size, always=(f_index_brie, f_indexed))
+
+
+def gen_c03(seed, size="quick", exclude=(), always=()):
     r = random.Random(seed)
     p = Prog(r, size)
     nfacts = r.choice([30, 60, 120]) if size == "quick" else r.choice([60, 150, 400, 1000])
     gen_edb(p, nfacts)
     k = r.randrange(3, 8) if size == "quick" else r.randrange(4, 12)
-    frs = [f for f in FRAGMENTS if f not in exclude]
-    for f in r.sample(frs, min(k, len(frs))):
+    frs = [f for f in FRAGMENTS if f not in exclude and f not in always]
+    for f in list(always) + r.sample(frs, min(k, len(frs))):
         f(p)
         p.meta["fragments"].append(f.__name__)
     p.meta["outputs"] = list(p.outputs)
